@@ -651,7 +651,8 @@ class CostFunction_GaussApproximation(CostFunction):
         _cost_function_description = "Gaussian approximation of Poisson NLL"
         if errors_to_use.lower() == "covariance":
             _cost_function = self.gaussian_approximation_covariance
-            _arg_names = [self._DATA_NAME, self._MODEL_NAME, self._COV_MAT_CHOLESKY_NAME if fast_math else self._COV_MAT_QR_NAME]
+            # the model-dependent Poisson variances are added to the matrix itself: no decomposition can be reused
+            _arg_names = [self._DATA_NAME, self._MODEL_NAME, "total_cov_mat"]
             _cost_function_description += " (with covariance matrix)"
         elif errors_to_use.lower() == "pointwise":
             _cost_function = self.gaussian_approximation_pointwise_errors
